@@ -796,6 +796,15 @@ fn build_tree() -> Tree {
     std::fs::create_dir(base.join("d.gz")).unwrap();
     std::fs::create_dir(base.join("sub/b.gz")).unwrap();
     std::fs::create_dir(base.join("sub.gz")).unwrap();
+    // entries that exist but cannot be opened: a symlink loop and a socket, as the `.gz`
+    // sibling of a plain file and on their own
+    for p in ["g", "h", "sub/g"] {
+        std::fs::write(base.join(p), format!("plain {}", p)).unwrap();
+    }
+    std::os::unix::fs::symlink("g.gz", base.join("g.gz")).unwrap();
+    std::os::unix::fs::symlink("g.gz", base.join("sub/g.gz")).unwrap();
+    std::os::unix::fs::symlink("k.gz", base.join("k.gz")).unwrap();
+    drop(std::os::unix::net::UnixListener::bind(base.join("h.gz")).unwrap());
     Tree {
         _tmp: tmp,
         outer,
@@ -816,8 +825,12 @@ fn tree_line(p: &Path, out: &mut Vec<String>) {
             out.push(hex(k.file_name().as_bytes()));
             tree_line(&k.path(), out);
         }
-    } else {
+    } else if m.is_file() {
         out.push("f".into());
+        out.push(m.ino().to_string());
+    } else {
+        // a symlink (the tree only has loops) or a socket: exists, cannot be opened
+        out.push("b".into());
         out.push(m.ino().to_string());
     }
 }
@@ -836,7 +849,7 @@ fn classify_io(e: &std::io::Error) -> String {
         Some(libc::ENOENT) => "ERR:notfound".into(),
         Some(libc::ENOTDIR) => "ERR:notdir".into(),
         Some(libc::ENAMETOOLONG) => "ERR:toolong".into(),
-        other => format!("ERR:os{:?}", other),
+        _ => "ERR:other".into(),
     }
 }
 
@@ -851,7 +864,7 @@ pub fn c19(em: &mut Emit, thorough: bool, seed: u64) {
     let outer_ino = std::fs::metadata(&t.outer).unwrap().ino();
     let long = "L".repeat(254);
     let segs: Vec<&str> = vec![
-        "a", "sub", "..", ".", "...", "..a", "a..", "", "secret", "b", "c", "d", "e", "f", &long,
+        "a", "sub", "..", ".", "...", "..a", "a..", "", "secret", "b", "c", "d", "e", "f", "g", "h", "k", "g.gz", &long,
     ];
     let depth = if thorough { 4 } else { 3 };
     let mut paths: Vec<String> = vec![String::new()];
@@ -983,10 +996,12 @@ pub fn c19(em: &mut Emit, thorough: bool, seed: u64) {
                             .map(|m| (m.dev(), m.ino()))
                             .map_err(|e| classify_io(&e))
                     };
+                    // the `.gz` sibling counts only if it can be opened and is not a directory
                     let sibling = if p.is_empty() {
                         None
                     } else {
-                        std::fs::metadata(format!("{}.gz", full))
+                        std::fs::File::open(format!("{}.gz", full))
+                            .and_then(|f| f.metadata())
                             .ok()
                             .filter(|m| !m.is_dir())
                             .map(|m| (m.dev(), m.ino()))
